@@ -14,10 +14,6 @@ From LN Require Import C20_Defs C20_Proofs.
 Import ListNotations.
 Local Open Scope Z_scope.
 
-Definition order_ok {T} (Op : ops T) : Prop :=
-  (forall x y, cmp Op y x = - cmp Op x y) /\
-  (forall x y z, cmp Op x y <= 0 -> cmp Op y z <= 0 -> cmp Op x z <= 0).
-
 (* --- the sorted-array reference ------------------------------------------------------------------- *)
 (* the model's sort is a sorted permutation, and the element at index k is characterised by ranks alone:
    fewer than k+1 elements are smaller, at least k+1 are not larger -- so every correct std::sort /
@@ -29,13 +25,7 @@ Theorem C20_order_statistic : forall T (Op : ops T), order_ok Op -> forall (l : 
      In x l /\ (count_lt Op x l <= k)%nat /\ (k < count_le Op x l)%nat /\
      (forall y, (count_lt Op y l <= k)%nat -> (k < count_le Op y l)%nat -> equiv Op x y) /\
      (forall s', StronglySorted (le Op) s' -> Permutation s' l -> equiv Op (nth k s' d) x)).
-Proof.
-  intros T Op [Ha Ht] l d k. split; [split; [apply sort_sorted | apply sort_perm]; assumption|].
-  intros Hk x. destruct (order_statistic Op Ha Ht l d k Hk) as (H0 & H1 & H2).
-  split; [exact H0|]. split; [exact H1|]. split; [exact H2|]. split.
-  - intros y Hy1 Hy2. exact (rank_unique Op Ha Ht l k x y H1 H2 Hy1 Hy2).
-  - intros s' Hs Hp. exact (any_sort_agrees Op Ha Ht l s' d k Hs Hp Hk).
-Qed.
+Proof. exact s_order_statistic. Qed.
 Print Assumptions C20_order_statistic.
 
 (* percentile (unsorted variant) = the element of the sorted permutation at the binary64-computed position,
@@ -48,11 +38,7 @@ Theorem C20_percentile_spec : forall T (Op : ops T), order_ok Op -> forall (l : 
   (StronglySorted (le Op) s /\ Permutation s l /\
    percentile Op l p = (if lp =? rp then nthZ Op s lp else midpoint Op (nthZ Op s lp) (nthZ Op s rp))) /\
   (StronglySorted (le Op) l -> percentile_sorted Op l p = percentile Op l p).
-Proof.
-  intros T Op [Ha Ht] l p. cbv zeta. split.
-  - exact (percentile_spec Op Ha Ht l p).
-  - exact (percentile_sorted_agrees Op Ha l p).
-Qed.
+Proof. exact s_percentile_spec. Qed.
 Print Assumptions C20_percentile_spec.
 
 (* the binary64 position agrees with the exact rational p*(n-1)/100: floor and ceiling.
@@ -73,10 +59,7 @@ Theorem C20_position_exact_partial : forall k n, 0 <= k <= 1600 -> 1 <= n <= 512
   pct_rpos (grid_p k) n = - ((- (k * (n - 1))) / 1600) /\
   0 <= pct_lpos (grid_p k) n <= pct_rpos (grid_p k) n /\ pct_rpos (grid_p k) n <= n - 1 /\
   pct_rpos (grid_p k) n <= pct_lpos (grid_p k) n + 1.
-Proof.
-  intros k n Hk Hn. destruct (position_grid k n Hk Hn) as (H1 & H2 & H3).
-  destruct (position_grid_range k n Hk Hn) as (H4 & H5 & H6 & _). tauto.
-Qed.
+Proof. exact s_position_exact_partial. Qed.
 Print Assumptions C20_position_exact_partial.
 
 (* the property's formula on that grid: value at position k(n-1)/1600 of the sorted list, midpoint of the
@@ -88,7 +71,7 @@ Theorem C20_percentile_formula : forall T (Op : ops T), order_ok Op -> forall (l
   percentile Op l (grid_p k) =
   if a mod 1600 =? 0 then nthZ Op s (a / 1600)
   else midpoint Op (nthZ Op s (a / 1600)) (nthZ Op s (a / 1600 + 1)).
-Proof. intros T Op [Ha Ht]. exact (percentile_grid Op Ha Ht). Qed.
+Proof. exact s_percentile_formula. Qed.
 Print Assumptions C20_percentile_formula.
 
 Theorem C20_median : forall T (Op : ops T), order_ok Op -> forall (l : list T),
@@ -98,7 +81,7 @@ Theorem C20_median : forall T (Op : ops T), order_ok Op -> forall (l : list T),
   median Op l =
   if Z.odd n then nthZ Op s ((n - 1) / 2)
   else midpoint Op (nthZ Op s (n / 2 - 1)) (nthZ Op s (n / 2)).
-Proof. intros T Op [Ha Ht]. exact (median_spec Op Ha Ht). Qed.
+Proof. exact s_median. Qed.
 Print Assumptions C20_median.
 
 (* --- histograms ---------------------------------------------------------------------------------------- *)
@@ -122,11 +105,7 @@ Theorem C20_partition : forall T (Op : ops T), order_ok Op -> forall (thr vals :
      (Z.of_nat (length m),
       if 0 <? Z.of_nat (length m) then mean_of Op m else nan Op,
       if 0 <? Z.of_nat (length m) then median_sorted Op m else nan Op)).
-Proof.
-  intros T Op [Ha Ht] thr vals. cbv zeta.
-  destruct (hist_partition Op Ha Ht thr vals) as (H1 & H2 & H3 & H4 & H5 & H6).
-  repeat (split; [assumption|]). exact (bin_summary_spec Op).
-Qed.
+Proof. exact s_partition. Qed.
 Print Assumptions C20_partition.
 
 (* bin(v), for EVERY v of the scalar type (not only data values, not only integers): the bin the counting rule
@@ -137,11 +116,7 @@ Theorem C20_bin_agrees : forall T (Op : ops T), order_ok Op -> forall (st : list
   (forall b, (b <= length st)%nat -> (hist_bin Op st v = Z.of_nat b <-> in_binb Op st b v = true)) /\
   (forall thr vals, st = sort Op thr -> In v vals ->
      In v (nth (Z.to_nat (hist_bin Op st v)) (hist_bins Op st (sort Op vals)) [])).
-Proof.
-  intros T Op [Ha Ht] st v Hs. split; [apply bin_range|]. split.
-  - intros b Hb. exact (bin_agrees Op Ha Ht st v b Hs Hb).
-  - intros thr vals -> Hv. exact (bin_of_data Op Ha Ht thr vals v Hv).
-Qed.
+Proof. exact s_bin_agrees. Qed.
 Print Assumptions C20_bin_agrees.
 
 (* with exact arithmetic the mean of a bin is the mean of the values of the original (unsorted) list that lie
@@ -152,7 +127,7 @@ Theorem C20_exact_mean : forall (thr vals : list Q) (b : nat), (b <= length thr)
   let m' := filter (in_binb Q_ops st b) vals in
   length m = length m' /\
   (mean_of Q_ops m == fold_left Qplus m' 0 / inject_Z (Z.of_nat (length m')))%Q.
-Proof. exact Q_bin_mean. Qed.
+Proof. exact s_exact_mean. Qed.
 Print Assumptions C20_exact_mean.
 
 (* the translated source expressions mean what the model assumes: the predicate handed to upper_bound is a
@@ -162,11 +137,7 @@ Theorem C20_kernels : forall t v n,
   src_hist_goes_right t v = src_hist_goes_right 0 (zcmp v t) /\
   src_hist_goes_right t v = (t <=? v) /\
   src_bin_query v = v /\ src_bin_last (src_hist_bins n) = n /\ src_pct_last n = n - 1.
-Proof.
-  intros t v n. split; [apply k_goes_right_order|]. split.
-  - unfold src_hist_goes_right. apply Z.geb_leb.
-  - split; [reflexivity|]. split; [unfold src_bin_last, src_hist_bins; apply Z.add_simpl_r | reflexivity].
-Qed.
+Proof. exact s_kernels. Qed.
 Print Assumptions C20_kernels.
 
 (* --- non-vacuity ------------------------------------------------------------------------------------------ *)
